@@ -25,6 +25,17 @@ def gen_cases(tier, seed):
     for i, _ in enumerate(table_ids()):
         for v in range(-1, 257):
             yield Case(2001, [i, v], [], 'subfunction name')
+    # a lookup is a function of (table, value) alone: the same lookups again after the same value has been looked up in
+    # every other table and in the other name spaces, in this process (catches memoisation shared between tables)
+    for i, _ in enumerate(table_ids()):
+        for v in range(0, 256):
+            yield Case(2001, [i, v, 1], [], 'subfunction name after the other tables')
+    for v in range(0, 256):
+        yield Case(2002, [0, v, 1], [], 'nrc name after other lookups')
+        yield Case(2005, [0, v, 1], [], 'dtc format name after other lookups')
+    for v in list(range(0, 0x200)) + list(range(0xF000, 0x10000)):
+        yield Case(2003, [0, v, 1], [], 'did name after other lookups')
+        yield Case(2004, [0, v, 1], [], 'routine name after other lookups')
     for v in range(0, 256):
         yield Case(2002, [0, v], [], 'nrc name')
     for v in range(-1, 65537):
@@ -50,7 +61,15 @@ def m_ostr(f):
 def impl(c):
     from udsoncan import DataIdentifier, Routine, Dtc
     from udsoncan.ResponseCode import ResponseCode
-    i, v = c.ints
+    i, v = c.ints[:2]
+    if len(c.ints) > 2:
+        for t in _tables:
+            t.get_name(v)
+        for f in (ResponseCode.get_name, DataIdentifier.name_from_id, Routine.name_from_id, Dtc.Format.get_name):
+            try:
+                f(v)
+            except Exception:
+                pass
     if c.entry == 2001:
         return enc_str(_tables[i].get_name(v))
     if c.entry == 2002:
@@ -91,7 +110,7 @@ ISO_ROUTINE = [(0x0000, 0x00FF, 'ISOSAEReserved'), (0x0100, 0x01FF, 'TachographT
 def oracle(c, r):
     from udsoncan import DataIdentifier, Routine, Dtc
     from udsoncan.ResponseCode import ResponseCode
-    i, v = c.ints
+    i, v = c.ints[:2]
     if c.entry == 2001:
         if not (0 <= v <= 255):
             return None
